@@ -132,7 +132,7 @@ def oracle(tpl: bytes, holes, params, got_sql: str):
 
 def run(ctx: core.Ctx):
     rng = ctx.rng
-    pr = core.check_proofs(ctx, "Props/C06")
+    pr = core.check_proofs(ctx, "Props/C06", headers=[pk.HEADER])
     disagreements, samples = [], []
     distinct = set()
     witness = None
